@@ -403,6 +403,35 @@ func (in *Interp) openBase() {
 		}
 		return []Value{s[i-1 : j]}
 	})
+	in.reg(str, "byte", func(in *Interp, a []Value) []Value {
+		s := in.checkStr(a, 0, "byte")
+		l := len(s)
+		i := in.optInt(a, 1, "byte", 1)
+		if i < 0 {
+			i = l + i + 1
+			if i < 0 {
+				i = 0
+			}
+		}
+		j := in.optInt(a, 2, "byte", i)
+		if j < 0 {
+			j = l + j + 1
+			if j < 0 {
+				j = 0
+			}
+		}
+		if i < 1 {
+			i = 1
+		}
+		if j > l {
+			j = l
+		}
+		var out []Value
+		for k := i; k <= j; k++ {
+			out = append(out, float64(s[k-1]))
+		}
+		return out
+	})
 	in.reg(str, "rep", func(in *Interp, a []Value) []Value {
 		s := in.checkStr(a, 0, "rep")
 		n := in.checkInt(a, 1, "rep")
@@ -629,6 +658,12 @@ func (in *Interp) newCoroutine(fn Value) *Coroutine {
 	co.th = &thread{co: co}
 	return co
 }
+
+// NewCoroutine creates a suspended coroutine for fn (what a host does with NewThread).
+func (in *Interp) NewCoroutine(fn Value) *Coroutine { return in.newCoroutine(fn) }
+
+// Status is the coroutine's status as coroutine.status reports it.
+func (c *Coroutine) Status() string { return c.status }
 
 // ResumeNew creates a coroutine for fn and resumes it once (what a host does
 // with NewThread + Resume).
